@@ -1,6 +1,7 @@
 mod interp;
 mod prog;
 mod dfs;
+mod pct;
 mod randcheck;
 mod rec;
 mod sample;
@@ -251,6 +252,38 @@ fn cmd_one(args: &[String]) {
     if args.iter().any(|a| a == "--slen") {
         interp::LOG_SLEN.store(true, std::sync::atomic::Ordering::Relaxed);
     }
+    if arg(args, "--mode") == Some("pct") {
+        let iters: usize = arg(args, "--iters").unwrap_or("50").parse().unwrap();
+        let seed: u64 = arg(args, "--seed").unwrap_or("1").parse().unwrap();
+        if let Some(b) = arg(args, "--bugs") {
+            // bug specs: {program id: {"bug":[[code,pc,r],...],"depth":d}}
+            let all: Value = serde_json::from_str(&std::fs::read_to_string(b).unwrap()).unwrap();
+            if let Some(spec) = all.get(p.id.to_string()) {
+                let bug: Vec<(usize, usize, i64)> = spec["bug"].as_array().unwrap().iter()
+                    .map(|x| (x[0].as_u64().unwrap() as usize, x[1].as_u64().unwrap() as usize, x[2].as_i64().unwrap())).collect();
+                let depth = spec["depth"].as_u64().unwrap() as usize;
+                let n = spec["iters"].as_u64().unwrap() as usize;
+                let r = pct::pct_bug(p, &bug, depth, n, seed.wrapping_mul(2654435761).wrapping_add(p.id as u64));
+                write_trie(&Trie::new(), &format!("{out}/p{idx}.trie"));
+                let mut m = r;
+                m["capped"] = json!(false);
+                m["nondet"] = Value::Null;
+                m["outcomes"] = json!([]);
+                m["bugrun"] = json!(true);
+                std::fs::write(format!("{out}/p{idx}.meta"), m.to_string()).unwrap();
+                return;
+            }
+        }
+        let (meta, log) = pct::pct_program(p, iters, seed.wrapping_mul(15485863).wrapping_add(p.id as u64));
+        let f = std::fs::File::create(format!("{out}/p{idx}.pctlog")).unwrap();
+        let mut w = BufWriter::new(f);
+        for l in log {
+            writeln!(w, "{l}").unwrap();
+        }
+        write_trie(&Trie::new(), &format!("{out}/p{idx}.trie"));
+        std::fs::write(format!("{out}/p{idx}.meta"), meta.to_string()).unwrap();
+        return;
+    }
     if arg(args, "--mode") == Some("rand") {
         let iters: usize = arg(args, "--iters").unwrap_or("50").parse().unwrap();
         let seed: u64 = arg(args, "--seed").unwrap_or("1").parse().unwrap();
@@ -325,7 +358,7 @@ fn cmd_enum(args: &[String]) {
                     c.arg(flag);
                 }
             }
-            for opt in ["--mode", "--iters", "--seed"] {
+            for opt in ["--mode", "--iters", "--seed", "--bugs"] {
                 if let Some(v) = arg(args, opt) {
                     c.arg(opt).arg(v);
                 }
